@@ -140,6 +140,9 @@ theorem C06.envCreate_frame (e : Nat) (b : String) (v : Obj) (st : St) (e' : Nat
   split
   next v' st1 hv =>
     rw [hv] at hro; simp only at hro; subst hro
+    have hrb : run (rootBindsFunc b) st1 = (.ok (rootFnOf st1 b), st1) := rfl
+    rw [run_bind, hrb]
+    dsimp only
     rw [run_bind, run_modifyFrame]
     cases hf : st1.frames[e]? with
     | none => rfl
